@@ -8,6 +8,7 @@ import traceback
 
 from . import extract as X
 from .prog import Program, AnchorMissing
+from .paths import TooManyPaths
 
 VERIF = X.VERIF
 
@@ -149,6 +150,10 @@ def run_property(prop, tier, rule_mod, configs, replay=None, selftest=None):
     ctx = Ctx(prop, tier, progs, infos)
     try:
         rule_mod.run(ctx)
+    except TooManyPaths as e:
+        # fail closed: the function grew beyond what the path engine enumerates (a new loop nest, a state machine)
+        ctx.cur_config = ctx.cur_config or configs[0]
+        ctx.ob("analysis-budget", False, "analysis-budget: %s" % e, construct="budget", callee=str(e).split(":")[0][:120])
     except AnchorMissing as e:
         ctx.cur_config = ctx.cur_config or configs[0]
         ctx.ob("anchor-missing", False, "anchor-missing: %s" % e, construct="anchor", callee=str(e)[:120])
